@@ -135,14 +135,10 @@ func fmtErr(pos position, input []byte, msg bilingualMsg, char rune) error {
 	// 上下文（如果有输入）
 	if len(input) > 0 {
 		sb.WriteString("  |\n")
-		line := getLineAtBytes(input, pos.line)
+		line, pointerPos := quoteLine(input, pos.line, pos.col)
 		sb.WriteString(fmt.Sprintf("  |  %s\n", line))
 
 		// 指示符
-		pointerPos := pos.col - 1
-		if pointerPos < 0 {
-			pointerPos = 0
-		}
 		pointer := strings.Repeat(" ", pointerPos) + "^"
 		sb.WriteString(fmt.Sprintf("  |  %s\n", pointer))
 		sb.WriteString("  |\n")
@@ -169,22 +165,65 @@ func fmtErr(pos position, input []byte, msg bilingualMsg, char rune) error {
 	return errors.New(sb.String())
 }
 
+// maxQuoteBytes 引用的源码行最多显示的字节数（含省略号）
+const maxQuoteBytes = 60
+
 // getLineAtBytes 获取指定行的内容
 func getLineAtBytes(input []byte, line int) string {
-	lines := strings.Split(string(input), "\n")
+	text, _ := quoteLine(input, line, 1)
+	return text
+}
+
+// quoteLine 获取指定行的内容，以及错误列之前的字符数（用于放置 ^ 指示符）。
+// 行太长时，按字符边界截取包含错误列的一段，被截掉的一侧用 ... 标出。
+func quoteLine(input []byte, line int, col int) (string, int) {
+	text := string(input)
+	lines := strings.Split(text, "\n")
 	if line > 0 && line <= len(lines) {
-		result := lines[line-1]
-		// 如果行太长，截取
-		if len(result) > 60 {
-			result = result[:57] + "..."
+		text = lines[line-1]
+	}
+	caret := col - 1
+	if caret < 0 {
+		caret = 0
+	}
+	if len(text) <= maxQuoteBytes {
+		return text, caret
+	}
+
+	runes := []rune(text)
+	if caret > len(runes) {
+		caret = len(runes)
+	}
+	from, to := caret, caret
+	size := 0
+	if to < len(runes) {
+		size += utf8.RuneLen(runes[to])
+		to++
+	}
+	budget := maxQuoteBytes - 2*len("...")
+	growLeft := func(limit int) {
+		for from > 0 && size+utf8.RuneLen(runes[from-1]) <= limit {
+			from--
+			size += utf8.RuneLen(runes[from])
 		}
-		return result
 	}
-	result := string(input)
-	if len(result) > 60 {
-		result = result[:57] + "..."
+	growLeft(budget * 2 / 3)
+	for to < len(runes) && size+utf8.RuneLen(runes[to]) <= budget {
+		size += utf8.RuneLen(runes[to])
+		to++
 	}
-	return result
+	growLeft(budget)
+
+	result := string(runes[from:to])
+	pointerPos := caret - from
+	if from > 0 {
+		result = "..." + result
+		pointerPos += len("...")
+	}
+	if to < len(runes) {
+		result += "..."
+	}
+	return result, pointerPos
 }
 
 // isValidStartChar 检查字符是否可以作为表达式的开头
